@@ -101,6 +101,13 @@ class Scenario:
                 (copts if w == "C" else sopts)["maxFramePayloadSize"] = lim      # both limits, same value, one call
             o["limit"][w] = lim
             self.limit_who = w
+        # a receiver with a *frame* size limit only: fragmented messages larger than the limit must still arrive
+        self.frame_limit = None
+        if self.profile == "c01" and not o["compress"] and not self.limit_who and rng.random() < 0.12:
+            r_ = rng.choice(["C", "S"])
+            F = rng.choice([126, 1000, 65536])
+            (copts if r_ == "C" else sopts)["maxFramePayloadSize"] = F
+            self.frame_limit = (r_, F)
         o["dlimit"] = {"C": 0, "S": 0}
         if self.profile == "c16d":
             o["dlimit"] = dict(self.dlimit)
@@ -262,6 +269,10 @@ class Scenario:
         if self.o["limit"][w]:
             apis = ["msg"]
         api = rng.choice(apis)
+        flim = None
+        if self.frame_limit and self.frame_limit[0] != w:
+            flim = self.frame_limit[1]       # the peer limits the size of a single frame: send in frames within that limit
+            api = "msg"
         if api == "prepared" and not getattr(p, "applyMask", True):
             api = "msg"                 # prepared messages ignore the (benchmark-only) applyMask=False option
         exc = ""
@@ -276,6 +287,8 @@ class Scenario:
             if api == "msg":
                 frag = rng.choice([None, None, 1, 2, 125, 126, max(1, n - 1), max(1, n), n + 1, 65536]) if n < 3000 else \
                     rng.choice([None, 125, 4096, 65535, 65536, n - 1, n, n + 1])
+                if flim is not None:
+                    frag = rng.choice([1 if n < 300 else 100, 125, flim - 1, flim])
                 p.sendMessage(payload, isBinary=binary, fragmentSize=frag, sync=sync, doNotCompress=bool(dnc))
             elif api == "prepared":
                 pm = p.factory.prepareMessage(payload, isBinary=binary, doNotCompress=bool(dnc))
@@ -304,7 +317,12 @@ class Scenario:
                         p.sendMessageFrameData(b"")        # a zero-length frame is completed by an empty data call
                     while pos < b:
                         c = min(b - pos, rng.choice([1, 2, 7, 1000, b - a]))
-                        p.sendMessageFrameData(payload[pos:pos + c], sync=rng.random() < 0.15)
+                        over = 0
+                        if pos + c == b and rng.random() < 0.3:
+                            over = rng.choice([1, 3, 50])      # a chunk that overruns the frame: only the part that fits belongs to it
+                        rest = p.sendMessageFrameData(payload[pos:pos + c + over], sync=rng.random() < 0.15)
+                        if over and rest is not None and rest != -min(over, n - (pos + c)) and rest != -over:
+                            self.problems.append(dict(scenario=self.sid if hasattr(self, "sid") else -1, problem="sendMessageFrameData overrun returned %r" % rest))
                         pos += c
                     if rng.random() < 0.3:
                         self.net_step()
